@@ -25,23 +25,28 @@ class Adapter:
         L = self.langs[lang]
         ctx = materialise.lang_ctx(L, key=lang)
         res = {'steps': 0, 'div': [], 'features': []}
-        hist = case['hist']
-        if not hist or hist[-1]['act']['res'] == 'collide':
+        hist = case.get('hist')
+        if hist is not None and (not hist or hist[-1]['act']['res'] == 'collide'):
             return res
-        exp = norm_expected(hist[-1]['obs'])
         key = lang + json.dumps([case['abs']['assets'], case['abs']['links']], sort_keys=True)
         if key in self.seen:
             return res
         self.seen.add(key)
-        drv = ModelDriver(ctx)
-        for s in hist:
-            if drv.apply(s['act']) != s['act']['res']:
+        if hist is None:
+            from harness.replay_graph import build_model
+            m, _objs = build_model(ctx, case['assets'], case['assocs'])      # a model state enumerated directly (Gen_Graph)
+            hist = []
+        else:
+            exp = norm_expected(hist[-1]['obs'])
+            drv = ModelDriver(ctx)
+            for s in hist:
+                if drv.apply(s['act']) != s['act']['res']:
+                    res['inconclusive'] = True
+                    return res
+            if diff_obs(exp, drv.project()):
                 res['inconclusive'] = True
                 return res
-        if diff_obs(exp, drv.project()):
-            res['inconclusive'] = True
-            return res
-        m = drv.model
+            m = drv.model
         neo = neo_stub.install()
         feats = set()
         pairs = {}
